@@ -21,7 +21,75 @@ PROVED
     the claim holds for the children / the body of t, then it holds for t: semi(ID1, h, t, K) == semi(ID0, h, t, pre(K)).  With
     ast.NodeTransformer.generic_visit (every child visited, each replaced by the - identical - node returned; ASSUMED, finite trees)
     this is the claim for whole rules.
-(2) `rename_genes` (key `rename_genes`; see the second half of this docstring, written when that part was proved).
+(2) `rename_genes` (key `rename_genes`, hook table HOOKS; a model with any number of genes / reactions / groups, a dictionary of any
+    size, no context open), for the STATED CASE `fresh new identifiers` (PRE1, the case's requires / domain):
+        every new identifier names no gene of the model, is not itself a key of the dictionary (no chains, no identity entries),
+        and two keys that name genes of the model have different new identifiers (no two genes onto one identifier).
+    Under PRE1 the merge branch (`new_name in model.genes`) is unreachable (shown: the path is infeasible under the invariant).
+    Loop `for old_name, new_name in rename_dict.items()` (ghost enumeration of the dictionary, any order), invariant after EVERY
+    entry: model.genes is a well-formed DictList (list and index agree in both directions) with its entry members at their entry
+    positions; identifier(g) == rename_dict[entry id] for a member g whose entry identifier is a handled key, == the entry identifier
+    for every other object; the set recompute_reactions is exactly the union of the entry reaction sets of the members whose entry
+    identifier is a handled key (both inclusions); remove_genes stays empty.  (DictList.index / __contains__ / __getitem__ /
+    _generate_index by their proved C15 contracts - index needs a well-formed list at every iteration, _generate_index gives one back
+    only for pairwise different identifiers, which is obliged from the invariant and PRE1.)
+    Loop `for rxn in recompute_reactions` (ghost enumeration of the set): a reaction of the set with a rule object that has been
+    visited has semi(ID_now, h, rule, K) == semi(ID_entry, h, rule, pre(K)) for the arbitrary K; every other rule object keeps its
+    value for K and for pre(K); the ghost set of visited rule objects is exactly {rule(x) : x handled, rule(x) is not None}.
+    Post-condition, for the state SN in which `model.repair()` is called (exactly one such call; RECORDED, its write set - model.genes,
+    gene sets, reaction sets, model pointers - havocked): the three parts above with `all keys handled`; explicitly: a key k naming a
+    gene of the model: rename_dict[k] is in the index at the OLD position of k, k is not in the index any more; a non-key identifier of
+    the model is found as before; model pointers, group members, reaction sets, gene sets, rule pointers, tags, operators, child
+    lists, bodies, model.reactions and model.groups are as at entry.  After repair() the loop over remove_genes runs over the empty
+    set (nothing happens).
+    NOT proved: (a) calls outside PRE1 - chains, two old identifiers onto one new one, a new identifier already in use (the MERGE
+    branch with its group handling, repair 7173bc7): see the native observations below; (b) the effect of Model.repair() (it re-derives
+    every reaction's gene set through update_genes_from_gpr, whose own contract is contracts/c02_update_genes.py): the composition -
+    `a reaction's genes are exactly the genes of its rule` afterwards - needs names(renamed rule) = ren(names(old rule)), which is not
+    stated here (semantic statement only); (c) the in-context behaviour (undo registrations); (d) the identifier frame of Name nodes
+    outside the visited rules is stated at the value level (semi unchanged for K and pre(K)), not as `ID unchanged`.
+    PRECONDITIONS (stated): no context open; model.genes a well-formed DictList; every rule object (`_gpr` of any reaction, when not
+    None) is a GPR object owned by that one reaction (ghost inverse rn_gown).
+    ASSUMED (listed in the evidence): `_Renamer.visit` on the ROOT GPR object (ast.NodeTransformer: every node below is visited
+    once, Name nodes by the PROVED visit_Name, every child list rebuilt with the same nodes; tree induction with the PROVED step
+    lemma gives the value clause; rule trees of different GPR objects share no node); `_Renamer(d)`: a new visitor holding d itself;
+    the Object.id setter for a string: `_id := value` on every branch (Gene does not override Object._set_id_with_model);
+    Species.reactions = a new set with the content of `_reaction`; GPR.copy() returns another object and writes nothing that exists.
+
+Native observations OUTSIDE PRE1 (/venv/bin/python against /repo, 5-reaction model, genes g1..g4, a group {g1, g2}; the source comment
+says "undefined if there a value matches a different key"):
+  * chain {"g1": "x", "x": "y"} (x, y unused), in this insertion order: the gene is renamed twice (g1 -> x -> y) but _Renamer applies
+    the dictionary ONCE to the rules (g1 -> x): repair() then creates a NEW gene x for the rules and the renamed gene y is left without
+    reactions (in the group, in model.genes); in the other insertion order only g1 -> x happens.  Cross references agree afterwards.
+  * chained merge {"g1": "g2", "g2": "g3"} (either order): KeyError 'g2' from `model.genes.get_by_id(rename_dict[i.id])` in the final
+    loop (g2 has been removed when g1 asks for its merge target) AFTER the model was changed: model.genes == [g1, g3, g4], rules
+    "g2 and g3", "(g2 or g4) and g3" name a gene object g2 that is no longer in model.genes - cross references broken.  Whether
+    the KeyError is raised depends on the iteration order of the set remove_genes (7 of 20 runs of a two-reaction model: no
+    exception), but in BOTH outcomes a reaction keeps the removed gene g2 in its gene set (rules renamed once: "g2 and g3", gene g2
+    merged away).  FINDING (reported; outside the case proved here).
+  * {"g1": "n", "g2": "n"}, {"g1": "g2"} (merge), {"g1": "g1"}: documented behaviour, cross references agree, group repaired.
+  * inside PRE1 ({"g1": "n1", "g3": "n3", "zz": "n9"}): identifiers / rules as specified; new rule with K absent == old rule with
+    pre(K) absent for all 256 subsets K of the 8 identifiers in play x 5 rules: no deviation.
+
+Mutation trials (tools/mutate_and_run.sh on cobra/manipulation/modify.py; every mutant left the named obligation unproved.  loop#1
+conjuncts: 1-3 well-formedness (length, list -> index, index -> list), 4 identifiers, 5-6 recompute set, 7 remove_genes empty)
+  visit_Name: `.get(node.id, node.id)` -> `.get(node.id, None)`              engine: cannot store None as identifier (no path verified)
+  visit_Name: `.get(node.id, node.id)` -> `.get(node.id, 'x')`               visit_Name post.2 (identifier), post.3 (value)
+  visit_Name: assignment to node.id dropped                                   visit_Name post.2, post.3
+  visit_Name: `return node` -> `return None`                                  visit_Name post.1 (the node itself is returned)
+  rename_genes: per-entry `model.genes._generate_index()` dropped             loop#1/inv-preserve.2, .3
+  rename_genes: index rebuilt ONCE after the loop (the seeded mutant)         loop#1/inv-preserve.2, .3  (under PRE1 the mutant's FINAL
+      state equals the original's: it is the invariant `well formed after every entry` - and with it the precondition of
+      DictList.index in the next iteration - that rejects it; its visible misbehaviour needs dependent entries, outside PRE1)
+  rename_genes: `gene.id = new_name` -> `= old_name`                          loop#1/inv-preserve.4
+  rename_genes: `recompute_reactions.update(gene.reactions)` dropped          loop#1/inv-preserve.6
+  rename_genes: `model.genes[gene_index]` -> `model.genes[0]`                 loop#1/inv-preserve.4, .5, .6
+  rename_genes: `_Renamer(rename_dict)` -> `_Renamer({})`                     loop#2/inv-preserve.1, .2
+  rename_genes: `gene_renamer.visit(rxn.gpr)` dropped                         loop#2/inv-preserve.1, .3
+  rename_genes: rule loop over model.reactions instead of the set             not verified (checker refuses: the invariant is over a set enumeration)
+  rename_genes: `model.repair()` dropped                                      post (no recorded call)
+Vacuity guards: the engine's own check `an iteration is possible under the invariant` for both loops; a probe conjunct `i <= 0` added
+to the invariant of the rule loop is NOT provable (RN_PROBE=1).
 """
 import z3
 from .common import *  # noqa
@@ -361,7 +429,9 @@ def _rules_part(E, st, visited):
 def _inv2(E, Lc):
     _, order, pos, D = Lc.seq.src[:4]
     visited = lambda x: z3.And(D[x], pos[x] < Lc.i)  # noqa
-    return z3.And(*_rules_part(E, Lc.st, visited))
+    import os
+    probe = [Lc.i <= 0] if os.environ.get("RN_PROBE") else []
+    return z3.And(*(_rules_part(E, Lc.st, visited) + probe))
 
 
 def _mod2(E, Lc):
